@@ -337,6 +337,8 @@ class C06(Check):
         if sig is not None:
             sig['delivery'] = 'incremental' if incremental else 'whole'
             sig['family'] = e.family.name
+            if getattr(doc, 'tag', None):
+                sig['doc_tag'] = doc.tag
             if depth == 1 or os.environ.get('VERIF_C06_DEEP'):
                 if depth > 1:
                     sig['depth'] = 'deep'
